@@ -289,6 +289,7 @@ pub fn run(tier: Tier) {
     one_variant::<V1024>(&mut ctx, tier);
     // leaves and key bytes must not depend on what ran before in the process (e.g. the other variant)
     let smin = [sigma_min(512), sigma_min(1024)];
+    crate::history::differential(&mut ctx, "history_two_keys_keygen", &["K512", "k512", "K1024", "k1024"], 2, &|_op, digest| { let _ = digest; None });
     crate::history::differential(&mut ctx, "history_differential_keys_and_trees", &["K512", "K1024", "D512", "D1024"], 2, &|op, digest| {
         let n: usize = op[1..].parse().unwrap_or(512);
         let lo: f64 = digest.split("min=").nth(1).and_then(|s| s.split(' ').next()).and_then(|s| s.parse().ok()).unwrap_or(f64::NAN);
